@@ -57,7 +57,7 @@ func GenSshdMsg(t *simrt.Tape, form string, uniq int) *SshdMsg {
 	case 6:
 		target = 4060 + t.Choose(60, "long.len")
 	case 7:
-		target = 1100 + t.Choose(8000, "long.len")
+		target = 1100 + t.Choose(20000, "long.len")
 	}
 	mark := ""
 	if target > 0 {
@@ -85,8 +85,11 @@ func GenSshdMsg(t *simrt.Tape, form string, uniq int) *SshdMsg {
 			if l.KeyID == "" {
 				l.KeyID = fmt.Sprintf("user%d@example.com", uniq)
 			}
-			if t.Choose(3, "keyid.odd") == 0 {
+			switch t.Choose(4, "keyid.odd") {
+			case 0:
 				l.KeyID = fmt.Sprintf("ops team (serial %d) x", uniq)
+			case 3:
+				l.KeyID = fmt.Sprintf("build  bot   %d", uniq) // runs of blanks inside the key id are part of it
 			}
 			l.Serial = uint64(t.Choose(1<<30, "serial"))
 			if l.CAFP == "" {
